@@ -161,6 +161,10 @@ def facts_dir(config="E", verbose=True):
                 if key in seen:
                     os.unlink(os.path.join(base, seen[key]))
                 seen[key] = n
+        from . import facts as _facts
+        for n in os.listdir(base):
+            if n.endswith(".jsonl"):
+                _facts.build_index(os.path.join(base, n))
         open(os.path.join(base, "DONE"), "w").write(json.dumps({"tree": th, "config": config, "wall_s": time.time() - t0}))
         _gc(keep=th)
         return base, th, time.time() - t0
@@ -175,6 +179,8 @@ def _gc(keep):
 
 
 if __name__ == "__main__":
+    sys.path.insert(0, VERIF)
+    from lib import factsbuild as _fb
     cfg = sys.argv[1] if len(sys.argv) > 1 else "E"
-    d, th, w = facts_dir(cfg)
+    d, th, w = _fb.facts_dir(cfg)
     print(d, th, "%.1fs" % w)
